@@ -22,7 +22,7 @@ PLANS = {
   'C09': [('w_stack', {'stack': 'thrift', 'focus': 'c09'}, 1.0), ('w_stack', {'stack': 'mux', 'focus': 'c09'}, 1.0),
           ('w_stack', {'stack': 'thrift'}, 0.5), ('w_stack', {'stack': 'mux'}, 0.5)],
   'C08': [('w_transport', {'stack': 'thrift'}, 1.0), ('w_transport', {'stack': 'mux'}, 1.0)],
-  'C11': [('w_stack', {'stack': 'mux', 'focus': 'c11'}, 1.0)],
+  'C11': [('w_stack', {'stack': 'mux', 'focus': 'c11'}, 1.0), ('w_kafka', {}, 0.25)],
   'C07': [('w_pool', {}, 1.0)],
   'C10': [('w_timer', {}, 1.0)],
 }
